@@ -17,8 +17,12 @@ RULES = {
     "strings, one on realpath strings, both against a separator-terminated base, and a rejecting st_nlink > 1 "
     "test on the resolved path; no mixed real/unreal comparison",
     "R3": "base directory: the value load() hands to set_base_dir can never be the empty string",
+    "R4": "base-directory coverage: load() applies set_base_dir to the main graph and to every function of the model; "
+    "set_base_dir asks the tensor traversal for attributes too; the traversal reaches the tensor attributes of nested "
+    "nodes (recursive node iterator, or a self-recursion that forwards every flag) and the initializers of GRAPH and "
+    "GRAPHS subgraphs - a tensor that is not reached keeps base_dir '' and with it no containment check",
 }
-FLOORS = {"R1": 6, "R2": 6, "R3": 1}
+FLOORS = {"R1": 6, "R2": 6, "R3": 1, "R4": 5}
 EXPLANATION = (
     "Dominator queries on ExternalTensor's methods for every file-system read primitive, a who-may-fill check "
     "on the mmap/array fields, a small abstract interpretation of _check_path_containment over path-string "
@@ -340,7 +344,88 @@ def rule_r3(ctx):
                   how="string-emptiness domain over dirname/abspath/realpath/`or`", construct=f"base_dir sink {norm(val)}")
 
 
+def _loop_var_of(f: FuncInfo, node: ast.AST):
+    """(loop variable, iterable) of the innermost for-loop around node."""
+    p = getattr(node, "_parent", None)
+    while p is not None and p is not f.node:
+        if isinstance(p, ast.For) and isinstance(p.target, ast.Name):
+            return p.target.id, p.iter
+        p = getattr(p, "_parent", None)
+    return None, None
+
+
+def rule_r4(ctx):
+    repo = ctx.repo
+    load = repo.func("onnx_ir._io:load")
+    sb = repo.func("onnx_ir.external_data:set_base_dir")
+    # (a) load(): main graph and every function
+    calls = [c for c in calls_in(load) if (dotted_of(c.func) or "").endswith("set_base_dir") and c.args]
+    ctx.require(bool(calls), "load(): no set_base_dir call")
+    model_names = {n.targets[0].id for n in own_nodes(load.node) if isinstance(n, ast.Assign) and isinstance(n.targets[0], ast.Name)
+                   and isinstance(n.value, ast.Call) and (dotted_of(n.value.func) or "").endswith("deserialize_model")}
+    ctx.require(bool(model_names), "load(): deserialized model not found")
+    main = [c for c in calls if isinstance(c.args[0], ast.Attribute) and c.args[0].attr == "graph" and norm(c.args[0].value) in model_names]
+    ctx.check("R4", "load(): set_base_dir on the model's main graph", bool(main), load, load.node,
+              "the main graph's external tensors keep base_dir '' (no containment check)", how="call with <model>.graph", nontrivial=False)
+    fn_cov = []
+    for c in calls:
+        var, it = _loop_var_of(load, c)
+        if var and it is not None and any(isinstance(x, ast.Attribute) and x.attr == "functions" and norm(x.value) in model_names for x in ast.walk(it)) \
+                and any(isinstance(x, ast.Name) and x.id == var for x in ast.walk(c.args[0])):
+            fn_cov.append(c)
+    ctx.check("R4", "load(): set_base_dir on every function of the model", bool(fn_cov), load, load.node,
+              "external tensors held by node attributes inside the model's functions keep base_dir '' after load(): "
+              "_check_path_containment returns early for an empty base, so such a tensor is read from any absolute or "
+              "cwd-relative location",
+              how="a loop over <model>.functions applying set_base_dir to each function('s graph)", construct="functions not covered")
+    # (c) set_base_dir asks for attribute tensors
+    at = repo.func("onnx_ir.external_data:_all_tensors")
+    tcalls = [c for c in calls_in(sb) if (dotted_of(c.func) or "").endswith(at.name)]
+    ctx.require(bool(tcalls), "set_base_dir: tensor traversal call not found")
+    flags = [a.arg for a, d in zip(reversed(at.node.args.args), reversed(at.node.args.defaults))] + \
+            [a.arg for a, d in zip(at.node.args.kwonlyargs, at.node.args.kw_defaults) if d is not None]
+    for c in tcalls:
+        for fl in flags:
+            i = at.params.index(fl)
+            v = c.args[i] if i < len(c.args) else next((k.value for k in c.keywords if k.arg == fl), None)
+            ok = isinstance(v, ast.Constant) and v.value is True
+            ctx.check("R4", f"set_base_dir: traversal called with {fl}=True", ok, sb, c,
+                      f"set_base_dir leaves `{fl}` at its default: tensors in node attributes are not visited and keep base_dir ''",
+                      how="flag argument is the constant True", construct=f"{fl} not True")
+    # (b) traversal completeness
+    gp = at.params[0]
+    node_loops = [n for n in own_nodes(at.node) if isinstance(n, ast.For) and any(
+        isinstance(x, ast.Attribute) and x.attr in ("attributes",) for x in ast.walk(n))]
+    node_loops = [n for n in node_loops if not isinstance(getattr(n, "_parent", None), ast.For)]
+    ctx.require(bool(node_loops), "_all_tensors: loop over nodes/attributes not found")
+    for lp in node_loops:
+        it = lp.iter
+        recursive_iter = isinstance(it, ast.Call) and (dotted_of(it.func) or "").endswith("RecursiveGraphIterator") and it.args and norm(it.args[0]) == gp
+        selfrec = [c for c in ast.walk(lp) if isinstance(c, ast.Call) and (dotted_of(c.func) or "") == at.name]
+        forwards = bool(selfrec) and all(
+            all((at.params.index(fl) < len(c.args) and fl in norm(c.args[at.params.index(fl)])) or any(k.arg == fl and fl in norm(k.value) for k in c.keywords) for fl in flags)
+            for c in selfrec)
+        ok = recursive_iter or forwards
+        ctx.check("R4", "_all_tensors: tensor attributes of nested nodes are reached", bool(ok), at, selfrec[0] if selfrec and not forwards else lp,
+                  "the node loop covers only the graph's own nodes and the recursion into subgraphs drops a flag (it runs with the default), "
+                  "so tensor attributes of nodes inside subgraphs are skipped" if selfrec else
+                  "the node loop covers only the graph's own nodes: tensor attributes of nodes inside subgraphs are skipped",
+                  how="node loop iterates RecursiveGraphIterator(graph), or every self-recursive call forwards every defaulted parameter",
+                  construct="nested node attributes not reached")
+        # initializers of GRAPH / GRAPHS subgraphs
+        for kind in ("GRAPH", "GRAPHS"):
+            br = [n for n in ast.walk(lp) if isinstance(n, ast.If) and any(
+                isinstance(x, ast.Attribute) and x.attr == kind and (dotted_of(x) or "").endswith(f"AttributeType.{kind}") for x in ast.walk(n.test))]
+            ok = bool(br) and all(
+                any((isinstance(x, ast.Attribute) and x.attr == "initializers") or (isinstance(x, ast.Call) and (dotted_of(x.func) or "") == at.name) for s_ in b.body for x in ast.walk(s_))
+                for b in br)
+            ctx.check("R4", f"_all_tensors: initializers of {kind} subgraphs are reached", ok, at, br[0] if br else lp,
+                      f"initializers of subgraphs held by {kind} attributes are not visited and keep base_dir ''",
+                      how="branch reads <subgraph>.initializers or recurses", construct=f"{kind} initializers not reached")
+
+
 def run(ctx):
     rule_r1(ctx)
     rule_r2(ctx)
     rule_r3(ctx)
+    rule_r4(ctx)
